@@ -312,8 +312,17 @@ class G:
 
 
 # ---------------------------------------------------------------------- printer
+# C20 prints programs with a layout pass afterwards: statement separators and block braces are then emitted as the control
+# characters below, and a node carrying a label "lab" is preceded by \x01<lab>\x02 so that the layout pass knows where it starts.
+LAYOUT = {"sep": "; ", "lb": "{ ", "rb": " }", "nl": ";\n"}
+
+
 def q(s):
     return '"' + s + '"'
+
+
+def mark(e):
+    return f"\x01{e['lab']}\x02" if "lab" in e else ""
 
 
 def pe(e):
@@ -325,7 +334,7 @@ def pe(e):
     if k == "str":
         return q(e["v"])
     if k == "id":
-        return e["n"]
+        return mark(e) + e["n"]
     if k == "bin":
         return f"({pe(e['l'])} {e['op']} {pe(e['r'])})"
     if k == "and":
@@ -339,10 +348,10 @@ def pe(e):
     if k == "tern":
         return f"({pe(e['c'])} ? {pe(e['t'])} : {pe(e['f'])})"
     if k == "call":
-        return f"{e['f']}({', '.join(pe(a) for a in e['a'])})"
+        return f"{mark(e)}{e['f']}({', '.join(pe(a) for a in e['a'])})"
     if k == "lambda":
         caps = "[" + ", ".join(e["caps"]) + "]" if e["caps"] else ""
-        return f"fun{caps}({', '.join(p['n'] for p in e['params'])}) {{ {pb(e['b'])} }}"
+        return f"fun{caps}({', '.join(p['n'] for p in e['params'])}) " + blk(e['b'])
     if k == "vec":
         return "[" + ", ".join(pe(a) for a in e["a"]) + "]"
     if k == "map":
@@ -357,7 +366,11 @@ def pe(e):
 
 
 def pb(b):
-    return "; ".join(ps(s) for s in b)
+    return LAYOUT["sep"].join(ps(s) for s in b)
+
+
+def blk(b):
+    return LAYOUT["lb"] + pb(b) + LAYOUT["rb"]
 
 
 def ps(s):
@@ -377,28 +390,28 @@ def ps(s):
     if k == "inc":
         return f"++{pe(s['l'])}"
     if k == "out":
-        return f"out({pe(s['e'])})"
+        return f"{mark(s)}out({pe(s['e'])})"
     if k == "expr":
         return pe(s["e"])
     if k == "block":
-        return "{ " + pb(s["b"]) + " }"
+        return blk(s["b"])
     if k == "if":
-        t = f"if ({pe(s['c'])}) {{ {pb(s['t'])} }}"
+        t = f"if ({pe(s['c'])}) " + blk(s['t'])
         for ei in s["ei"]:
-            t += f" else if ({pe(ei['c'])}) {{ {pb(ei['b'])} }}"
+            t += f" else if ({pe(ei['c'])}) " + blk(ei['b'])
         if s["haselse"]:
-            t += f" else {{ {pb(s['f'])} }}"
+            t += " else " + blk(s['f'])
         return t
     if k == "while":
-        return f"while ({pe(s['c'])}) {{ {pb(s['b'])} }}"
+        return f"while ({pe(s['c'])}) " + blk(s['b'])
     if k == "for":
-        return f"for ({ps(s['i'])}; {pe(s['c'])}; {ps(s['s'])}) {{ {pb(s['b'])} }}"
+        return f"for ({ps(s['i'])}; {pe(s['c'])}; {ps(s['s'])}) " + blk(s['b'])
     if k == "rfor":
-        return f"for ({s['n']} : {pe(s['e'])}) {{ {pb(s['b'])} }}"
+        return f"for ({s['n']} : {pe(s['e'])}) " + blk(s['b'])
     if k == "switch":
         t = f"switch ({pe(s['e'])}) {{ "
         for c in s["cases"]:
-            t += (f"default {{ {pb(c['b'])} }} " if c["isdefault"] else f"case ({pe(c['v'])}) {{ {pb(c['b'])} }} ")
+            t += ("default " + blk(c['b']) + " " if c["isdefault"] else f"case ({pe(c['v'])}) " + blk(c['b']) + " ")
         return t + "}"
     if k in ("break", "continue"):
         return k
@@ -407,15 +420,15 @@ def ps(s):
     if k == "def":
         params = ", ".join((p["ty"] + " " if p["ty"] else "") + p["n"] for p in s["params"])
         g = f" : {pe(s['guard'])}" if s["guarded"] else ""
-        return f"def {s['n']}({params}){g} {{ {pb(s['b'])} }}"
+        return f"def {s['n']}({params}){g} " + blk(s['b'])
     if k == "class":
         t = f"class {s['n']} {{ " + " ".join(f"var {a};" for a in s["attrs"])
-        t += f" def {s['n']}({', '.join(p['n'] for p in s['ctor']['params'])}) {{ {pb(s['ctor']['b'])} }}"
+        t += f" def {s['n']}({', '.join(p['n'] for p in s['ctor']['params'])}) " + blk(s['ctor']['b'])
         for m in s["methods"]:
-            t += f"; def {m['n']}({', '.join(p['n'] for p in m['params'])}) {{ {pb(m['b'])} }}"
+            t += f"; def {m['n']}({', '.join(p['n'] for p in m['params'])}) " + blk(m['b'])
         return t + " }"
     return pe(s)
 
 
 def program_text(prog):
-    return ";\n".join(ps(s) for s in prog)
+    return LAYOUT["nl"].join(ps(s) for s in prog)
